@@ -87,7 +87,7 @@ KANI_UNITS["vk_merge"] = {
 
 KANI_UNITS["ov_pipes"] = {
     "mode": "overlay", "crate": "contracts/kani/ov_pipes", "package": "dfir_pipes", "prefix": "dfir_pipes/src", "props": ["C11"],
-    "harness_props": [(r"^push::", ["C12"]), (r"symmetric_hash_join", ["C13"])],
+    "harness_props": [(r"^push::", ["C12"]), (r"symmetric_hash_join", ["C13"]), (r"send_push|send_sink", ["C11", "C12"])],
     "what": "dfir_pipes compiled in place (rsync overlay of the working tree); harness child modules appended to each combinator's file",
     "instantiation": "Item = u8, Meta = (), havoc upstreams/downstreams; loop-free step contracts => complete for the instantiation",
     "bounded": {r"_trace$": "trace of <= 5 calls from the initial state", r"_loop$": "internal loop unwound: <= 3 skipped items / inner length <= 3"},
@@ -114,6 +114,8 @@ PROPS["C15"] = [("kani", "vk_merge", ["merge_", "tagged_"], ("quick", "thorough"
 
 PROPS["C11"] = [("kani", "ov_pipes", ["pull::"], ("quick", "thorough"))]
 
+PROPS["C12"] = [("kani", "ov_pipes", ["push::", "pull::send_push", "pull::send_sink"], ("quick", "thorough"))]
+
 LEVEL = {
-    "C01": "other", "C02": "other", "C03": "other", "C04": "other", "C09": "other", "C15": "other", "C11": "other",
+    "C01": "other", "C02": "other", "C03": "other", "C04": "other", "C09": "other", "C15": "other", "C11": "other", "C12": "other",
 }
